@@ -1417,6 +1417,84 @@ pub fn overlay_member_cells() -> Vec<Scenario> {
     v
 }
 
+/// Two conflicted member events with the SAME sender and target whose auth-event selections differ
+/// (a `leave` selects no join rules, a `join` does): `jn` joins a public room and leaves; on one fork
+/// the creator makes the room invite-only, on the other `jn` — still seeing the public rule — joins
+/// again. Both join-rules events are allowed and the later (invite) wins, so the re-join must be
+/// checked against the RESOLVED join rule and be rejected: the resolved membership is the leave.
+/// `variant` 1 swaps in an invite → join pair (the join then stays allowed: the invite is in the
+/// resolved state), variant 2 a knock → join pair for versions with knocking.
+pub fn same_sender_member(ver: u32, who: usize, variant: usize) -> Scenario {
+    let cr = USERS[who % USERS.len()];
+    let jn = USERS[(who + 1 + who / USERS.len() % 4) % USERS.len()];
+    let create_c = if ver >= 11 { json!({}) } else { json!({"creator": cr}) };
+    let c = mk_ev("$c", cr, "m.room.create", Some(""), create_c, vec![], vec![], 1);
+    let mc = mk_ev("$mc", cr, "m.room.member", Some(cr), member("join"), vec![c.id.clone()], vec![c.id.clone()], 2);
+    let pl = mk_ev("$pl", cr, "m.room.power_levels", Some(""), json!({"users": {cr: 100}}), vec![mc.id.clone()], vec![c.id.clone(), mc.id.clone()], 3);
+    let jr0 = mk_ev("$jr0", cr, "m.room.join_rules", Some(""), json!({"join_rule": "public"}), vec![pl.id.clone()], vec![c.id.clone(), mc.id.clone(), pl.id.clone()], 4);
+    let j1 = mk_ev("$j1", jn, "m.room.member", Some(jn), member("join"), vec![jr0.id.clone()], vec![c.id.clone(), pl.id.clone(), jr0.id.clone()], 5);
+    // the first of the two same-sender events
+    let (first_mem, first_sender) = match variant {
+        1 => ("invite", cr),
+        2 if ver >= 7 => ("knock", jn),
+        _ => ("leave", jn),
+    };
+    let mut first_auth = vec![c.id.clone(), pl.id.clone(), j1.id.clone()];
+    if first_sender == cr {
+        first_auth.push(mc.id.clone());
+    }
+    // variant 1/2 start from a left user so that invite / knock are themselves allowed
+    let l0 = mk_ev("$l0", jn, "m.room.member", Some(jn), member("leave"), vec![j1.id.clone()], vec![c.id.clone(), pl.id.clone(), j1.id.clone()], 6);
+    let (prev_of_first, base_mem) = if variant == 0 { (j1.id.clone(), j1.clone()) } else { (l0.id.clone(), l0.clone()) };
+    if variant != 0 {
+        first_auth = vec![c.id.clone(), pl.id.clone(), l0.id.clone()];
+        if first_sender == cr {
+            first_auth.push(mc.id.clone());
+        }
+        if first_mem == "knock" {
+            first_auth.push(jr0.id.clone());
+        }
+    }
+    let _ = base_mem;
+    let first = mk_ev("$first", first_sender, "m.room.member", Some(jn), member(first_mem), vec![prev_of_first], first_auth, 7);
+    let jr1 = mk_ev("$jr1", cr, "m.room.join_rules", Some(""), json!({"join_rule": "invite"}), vec![first.id.clone()], vec![c.id.clone(), mc.id.clone(), pl.id.clone()], 8);
+    let j2 = mk_ev("$j2", jn, "m.room.member", Some(jn), member("join"), vec![first.id.clone()], vec![c.id.clone(), pl.id.clone(), jr0.id.clone(), first.id.clone()], 9);
+    let mut events = vec![c.clone(), mc.clone(), pl.clone(), jr0.clone(), j1.clone(), first.clone(), jr1.clone(), j2.clone()];
+    if variant != 0 {
+        events.push(l0.clone());
+    }
+    let store: Store = events.iter().map(|e| (e.id.clone(), e.clone())).collect();
+    let base = vec![
+        ("m.room.create".to_owned(), String::new(), c.id.clone()),
+        ("m.room.member".to_owned(), cr.to_owned(), mc.id.clone()),
+        ("m.room.power_levels".to_owned(), String::new(), pl.id.clone()),
+    ];
+    let mut s1 = base.clone();
+    s1.push(("m.room.join_rules".into(), String::new(), jr1.id.clone()));
+    s1.push(("m.room.member".into(), jn.to_owned(), first.id.clone()));
+    let mut s2 = base;
+    s2.push(("m.room.join_rules".into(), String::new(), jr0.id.clone()));
+    s2.push(("m.room.member".into(), jn.to_owned(), j2.id.clone()));
+    let sets = vec![s1, s2];
+    let chains = sets
+        .iter()
+        .map(|s| auth_chain(&store, s.iter().map(|x| x.2.clone())).into_iter().collect())
+        .collect();
+    Scenario { ver, events, sets, chains, rejected: vec![] }
+}
+
+pub fn same_sender_member_cells() -> Vec<Scenario> {
+    let mut v = Vec::new();
+    for ver in [6u32, 9, 10, 11] {
+        for who in [0usize, 3, 8] {
+            for variant in 0..3 {
+                v.push(same_sender_member(ver, who, variant));
+            }
+        }
+    }
+    v
+}
+
 /// The F4 witness of DESIGN §7: two conflicting topics, one sent before the only power-levels
 /// event (ts 50), one citing it (ts 20).
 pub fn f4_witness(ver: u32) -> Scenario {
